@@ -10,13 +10,14 @@ import (
 // State maps heap keys to their current SMT term. A missing key means "the
 // value at function entry" (key@0), declared lazily.
 type State struct {
-	heap map[string]string
+	heap   map[string]string
+	suffix string // name suffix of lazily declared versions ("@0" = function entry)
 }
 
 func newState() *State { return &State{heap: map[string]string{}} }
 
 func (s *State) clone() *State {
-	n := &State{heap: make(map[string]string, len(s.heap))}
+	n := &State{heap: make(map[string]string, len(s.heap)), suffix: s.suffix}
 	for k, v := range s.heap {
 		n.heap[k] = v
 	}
@@ -40,10 +41,15 @@ func (ex *Exec) get(st *State, key string, srt Sort) string {
 		return t
 	}
 	name := ex.entryName(key)
+	allocName := ex.entryName(allocKey)
+	if st.suffix != "" {
+		name = sanitize(key) + st.suffix
+		allocName = sanitize(allocKey) + st.suffix
+	}
 	if _, ok := ex.sc.declared[name]; !ok {
 		ex.sc.Declare(name, srt)
 		if key != allocKey {
-			ex.refAxiom(key, name, srt, ex.sc.Declare(ex.entryName(allocKey), SInt))
+			ex.refAxiom(key, name, srt, ex.sc.Declare(allocName, SInt))
 		}
 		if strings.HasPrefix(key, "M.") && strings.HasSuffix(key, ".card") {
 			// the nil map is empty; cardinalities are non-negative
@@ -211,7 +217,7 @@ func (ex *Exec) readLoc(st *State, l Loc) string {
 	ex.leafTyp[l.Key] = l.Leaf.Typ
 	a := ex.get(st, l.Key, l.Sort)
 	for _, i := range l.Idx {
-		a = mkSelect(a, i)
+		a = ex.sc.simpSelect(a, i)
 	}
 	return a
 }
